@@ -70,15 +70,12 @@ func (vs *VoteSummary) SetPrevotePowers(vals []Validator, prevotes map[string]gc
 
 	var maxHash string
 	var maxPow uint64
-	var bs bitset.BitSet
+	var bs, all bitset.BitSet
 	for blockHash, proof := range prevotes {
 		proof.SignatureBitSet(&bs)
-		var blockPow uint64
-		for i, ok := bs.NextSet(0); ok && int(i) < len(vals); i, ok = bs.NextSet(i + 1) {
-			valPow := vals[int(i)].Power
-			vs.TotalPrevotePower += valPow
-			blockPow += valPow
-		}
+		// A validator who signed several targets still counts once in the total.
+		all.InPlaceUnion(&bs)
+		blockPow := signerPower(vals, &bs)
 
 		vs.PrevoteBlockPower[string(blockHash)] = blockPow
 		if blockPow == maxPow {
@@ -89,6 +86,7 @@ func (vs *VoteSummary) SetPrevotePowers(vals []Validator, prevotes map[string]gc
 		}
 	}
 
+	vs.TotalPrevotePower = signerPower(vals, &all)
 	vs.MostVotedPrevoteHash = maxHash
 }
 
@@ -99,15 +97,12 @@ func (vs *VoteSummary) SetPrecommitPowers(vals []Validator, precommits map[strin
 
 	var maxHash string
 	var maxPow uint64
-	var bs bitset.BitSet
+	var bs, all bitset.BitSet
 	for blockHash, proof := range precommits {
 		proof.SignatureBitSet(&bs)
-		var blockPow uint64
-		for i, ok := bs.NextSet(0); ok && int(i) < len(vals); i, ok = bs.NextSet(i + 1) {
-			valPow := vals[int(i)].Power
-			vs.TotalPrecommitPower += valPow
-			blockPow += valPow
-		}
+		// A validator who signed several targets still counts once in the total.
+		all.InPlaceUnion(&bs)
+		blockPow := signerPower(vals, &bs)
 
 		vs.PrecommitBlockPower[string(blockHash)] = blockPow
 		if blockPow == maxPow {
@@ -118,7 +113,17 @@ func (vs *VoteSummary) SetPrecommitPowers(vals []Validator, precommits map[strin
 		}
 	}
 
+	vs.TotalPrecommitPower = signerPower(vals, &all)
 	vs.MostVotedPrecommitHash = maxHash
+}
+
+// signerPower returns the combined power of the validators whose bits are set in bs.
+func signerPower(vals []Validator, bs *bitset.BitSet) uint64 {
+	var pow uint64
+	for i, ok := bs.NextSet(0); ok && int(i) < len(vals); i, ok = bs.NextSet(i + 1) {
+		pow += vals[int(i)].Power
+	}
+	return pow
 }
 
 func (vs *VoteSummary) Reset() {
